@@ -1628,7 +1628,13 @@ def run(ctx):
              '2000-slot seeded patterns, 8 seeds, replayed through the scripted RNG; (4) SDD identity on DAC(codeword) for sps in '
              '{1,2,5,16} x nrz/rz/gaussian x exhaustive short codewords per order, chain DEC(SDD(DAC(ENC(b))))==b; SDD argmax on '
              'tie-free seeded energies (3 families) and every permutation of slot amplitudes; (5) ValueError for non-power-of-two '
-             'orders and ragged lengths, all container forms')
+             'orders (2^k+-1, negative, 0) and ragged lengths, all container forms, sps 1..16; (6) generic hardening pass: bit containers in '
+             'every sample dtype / element type / strided / write-protected layout (words <= 8 bits, HDD patterns <= 8 slots; thorough <= 12), '
+             'argument objects compared byte for byte after every call, the same object passed again (HDD: under other RNG answers), chains '
+             'HDD(ENC(b)) and HDD(SDD(DAC(cw))); the order as numpy scalar / 0-d array / float-valued / keyword; records of zero symbols; SDD on '
+             '14 sample dtypes x 14 container/noise layouts (noise of another dtype, signal+noise split, zero-sum noise) + 5 scales/offset through a '
+             'generic oracle (symbols on which all readings of "energy" agree); SDD on one shared object after every gv reconfiguration a->b->a '
+             'over 10 ways of fixing the grid x every order; records beyond 2^16 slots / symbols through all four functions')
     ctx.assume('numpy.random.randint/choice with a seeded generator only ever return values from the candidate set the call '
                'describes (bound by the conformance part: every recorded real answer is a candidate and replaying it through the '
                'scripted RNG reproduces the real output byte for byte)')
